@@ -274,4 +274,98 @@ def check (fval : Nat → Rat) (M : Trie) (ft : FT) (order : Nat) (rng : List Wo
   decide (M.order = order) && chkUni fval M ft rng && chkBounds M order &&
   ft.all (fun p => chkChildren fval M ft order rng p.1) && ft.all (fun p => chkComplete M order rng p.1)
 
+/-! ## a constructive builder: table → trie memory (TrieModel layout: `DontQuantize`, `DontBhiksha`)
+
+What `BuildTrie` / `RecursiveInsert` / `WriteEntries` leave in memory, as a pure fold: level `k+1` is the concatenation, over the
+records of level `k` in order, of their children sorted by word id; the `next` pointer of a record is the running count of
+children before it; one extra record per order holds the end pointer.  Input is a *bit table*: reversed n-grams (real and
+blank) with the float bits of probability and back-off (back-off bits already carry the extension mark). -/
+
+abbrev BT := List (List Word × (Nat × Nat))
+
+def insertNat (x : Nat) : List Nat → List Nat
+  | [] => [x]
+  | y :: ys => if x ≤ y then x :: y :: ys else y :: insertNat x ys
+
+def sortNat (l : List Nat) : List Nat := l.foldr insertNat []
+
+/-- words `w` such that `g ++ [w]` is a key, ascending -/
+def childrenOf (bt : BT) (g : List Word) : List Word :=
+  sortNat (bt.filterMap fun p => if p.1.length = g.length + 1 ∧ p.1.dropLast = g then p.1.getLast? else none)
+
+def nextLevel (bt : BT) (lvl : List (List Word)) : List (List Word) :=
+  lvl.flatMap fun g => (childrenOf bt g).map (fun w => g ++ [w])
+
+/-- level `k` (1-based): the records of order `k` in array order -/
+def level (bt : BT) (bound : Nat) : Nat → List (List Word)
+  | 0 => []
+  | 1 => (List.range bound).map (fun w => [w])
+  | k+1 => nextLevel bt (level bt bound k)
+
+/-- `next` pointers of the records of a level, plus the end pointer -/
+def childStarts (bt : BT) (lvl : List (List Word)) : List Nat :=
+  (lvl.foldl (fun (acc : List Nat × Nat) g => (acc.1 ++ [acc.2], acc.2 + (childrenOf bt g).length)) ([], 0)).1
+    ++ [(lvl.map fun g => (childrenOf bt g).length).sum]
+
+def store (mem byteOff width v : Nat) : Nat := mem ||| ((v % 2^(8 * width)) <<< (8 * byteOff))
+
+def valuesOf (bt : BT) (g : List Word) : Nat × Nat := (bt.lookup g).getD (0, 0)
+
+def countsOf (bt : BT) (bound order : Nat) : List Nat := (List.range order).map fun k => (level bt bound (k + 1)).length
+
+def writeUnigrams (bt : BT) (bound unigram : Nat) (mem : Nat) : Nat :=
+  let lvl := level bt bound 1
+  let starts := childStarts bt lvl
+  let mem := (List.range bound).foldl (fun mem w =>
+    let off := unigram + Gen.C04.sizeofTrieUnigramValue * w
+    let v := valuesOf bt [w]
+    store (store (store mem off 4 v.1) (off + 4) 4 v.2) (off + 8) 8 (starts.getD w 0)) mem
+  store mem (unigram + Gen.C04.sizeofTrieUnigramValue * bound + 8) 8 (starts.getD bound 0)
+
+def writeMiddle (bt : BT) (bound k : Nat) (m : Middle) (inline : Nat) (mem : Nat) : Nat :=
+  let lvl := level bt bound k
+  let starts := childStarts bt lvl
+  let mem := (lvl.zip (List.range lvl.length)).foldl (fun mem gi =>
+    let a := recAddr m.base m.totalBits gi.2
+    let v := valuesOf bt gi.1
+    let mem := writeInt57 mem a m.wordBits (gi.1.getLast?.getD 0)
+    let mem := writeNonPositiveFloat31 mem (a + m.wordBits) v.1
+    let mem := writeFloat32 mem (a + m.wordBits + 31) v.2
+    writeInt57 mem (a + m.wordBits + m.quantBits) inline (starts.getD gi.2 0)) mem
+  writeInt57 mem (recAddr m.base m.totalBits lvl.length + m.wordBits + m.quantBits) inline (starts.getD lvl.length 0)
+
+def writeLongest (bt : BT) (bound order : Nat) (l : Longest) (mem : Nat) : Nat :=
+  let lvl := level bt bound order
+  (lvl.zip (List.range lvl.length)).foldl (fun mem gi =>
+    let a := recAddr l.base l.totalBits gi.2
+    let mem := writeInt57 mem a l.wordBits (gi.1.getLast?.getD 0)
+    writeNonPositiveFloat31 mem (a + l.wordBits) (valuesOf bt gi.1).1) mem
+
+def plainCfg : Config := ⟨Gen.C04.defaultMultiplierBits, 8, 8, 22⟩
+
+/-- the trie (search region at offset `start`) built from a bit table -/
+def ofTable (bt : BT) (bound order start : Nat) : Trie :=
+  let counts := countsOf bt bound order
+  let shape := ofLayout 0 false false plainCfg counts start
+  let mem := writeUnigrams bt bound shape.unigram 0
+  let mem := (shape.middles.zip (List.range shape.middles.length)).foldl (fun mem mi =>
+    let inline := match mi.1.bhik with | .dont b => b | .array b _ _ => b
+    writeMiddle bt bound (mi.2 + 2) mi.1 inline mem) mem
+  let mem := writeLongest bt bound order shape.longest mem
+  { shape with mem := mem }
+
+/-- ghost child ranges of the built trie -/
+def rngOf (bt : BT) (bound : Nat) (g : List Word) : Node :=
+  let lvl := level bt bound g.length
+  let starts := childStarts bt lvl
+  let j := lvl.idxOf g
+  (starts.getD j 0, starts.getD (j + 1) 0)
+
+/-- the abstract table of a bit table -/
+def ftOf (fval : Nat → Rat) (bt : BT) (order : Nat) : FT :=
+  bt.map fun p =>
+    (p.1, { prob := fval (if p.1.length = 1 then p.2.1 else p.2.1 % 2^31 + 2^31), backoff := if p.1.length = order then 0 else fval p.2.2,
+            extendsLeft := if p.1.length = order then false else !(childrenOf bt p.1).isEmpty,
+            extendsRight := if p.1.length = order then false else p.2.2 != noExtensionBits, blank := false })
+
 end KV.TrieLM
